@@ -175,7 +175,8 @@ func ReadIgnoreAnnotations(cfg *config.Config, pass *analysis.Pass) *util.Ignore
 // Example: var x int // @ignore CODE1
 func findInlineNode(file *ast.File, comment *ast.Comment, fset *token.FileSet) (start token.Pos, end token.Pos, found bool) {
 	commentPos := comment.Pos()
-	commentLine := fset.Position(commentPos).Line
+	// Physical lines: positions adjusted by //line directives do not index the file's line table
+	commentLine := fset.PositionFor(commentPos, false).Line
 
 	// Binary search to find the declaration containing the comment
 	idx := sort.Search(len(file.Decls), func(i int) bool {
@@ -185,7 +186,7 @@ func findInlineNode(file *ast.File, comment *ast.Comment, fset *token.FileSet) (
 	// Comment lies between declarations (or after the last one): it is inline only if it
 	// trails the previous declaration on the same line, e.g. `var x T // @ignore CODE1`
 	if idx >= len(file.Decls) || commentPos < file.Decls[idx].Pos() {
-		if idx > 0 && fset.Position(file.Decls[idx-1].End()).Line == commentLine {
+		if idx > 0 && fset.PositionFor(file.Decls[idx-1].End(), false).Line == commentLine {
 			if fileContent := fset.File(commentPos); fileContent != nil {
 				return fileContent.LineStart(commentLine), comment.End(), true
 			}
@@ -208,7 +209,7 @@ func findInlineNode(file *ast.File, comment *ast.Comment, fset *token.FileSet) (
 			return false
 		}
 
-		nodeEndLine := fset.Position(n.End()).Line
+		nodeEndLine := fset.PositionFor(n.End(), false).Line
 
 		// Check if this node ends on the same line as the comment
 		if nodeEndLine == commentLine {
